@@ -118,6 +118,9 @@ func oracleC12() *Result {
 	for _, e := range sharingSources {
 		add([]byte(e), "sharing")
 	}
+	for _, e := range chainSources {
+		add([]byte(e), "chains")
+	}
 	for _, s := range loadCorpus() {
 		add(s.Src, "corpus")
 		if len(s.Src) < 3000 {
